@@ -1,0 +1,133 @@
+//go:build verif
+
+// Contracts for package arrayqueue (comment-only; read by /verif/engine, never compiled into the package).
+
+package arrayqueue
+
+//@ pred Inv(q) := q != nil && q.list != nil && arraylist.Inv(q.list)
+//@ -- abstract view: oldest element first (the order in which elements would be dequeued)
+//@ pred Seq(q) := arraylist.Seq(q.list)
+
+//@ func New
+//@   modifies nothing
+//@   ensures [C05 C15 C17] fresh(result) && Inv(result) && len(Seq(result)) == 0 && fresh(result.list)
+
+//@ func Queue.Enqueue
+//@   requires Inv(queue)
+//@   modifies queue.list.elements, elems(queue.list.elements)
+//@   ensures [C05 C17] Inv(queue) && queue.list == old(queue.list) && Seq(queue) == old(Seq(queue)) ++ [value]
+//@   ensures [C16] arraylist.Owned(queue.list)
+
+//@ func Queue.Dequeue
+//@   requires Inv(queue)
+//@   modifies queue.list.elements, elems(queue.list.elements)
+//@   ensures [C05 C17] Inv(queue) && queue.list == old(queue.list)
+//@   ensures [C05] empty: old(len(Seq(queue))) == 0 ==> !ok && value == zero(value) && len(Seq(queue)) == 0
+//@   ensures [C05] nonempty: old(len(Seq(queue))) > 0 ==> ok && value == old(Seq(queue))[0] && Seq(queue) == old(Seq(queue))[1:]
+//@   ensures [C16] arraylist.Owned(queue.list)
+
+//@ func Queue.Peek
+//@   requires Inv(queue)
+//@   modifies nothing
+//@   ensures [C05 C17 C18] len(Seq(queue)) == 0 ==> !ok && value == zero(value)
+//@   ensures [C05 C17 C18] len(Seq(queue)) > 0 ==> ok && value == Seq(queue)[0]
+
+//@ func Queue.Empty
+//@   requires Inv(queue)
+//@   modifies nothing
+//@   ensures [C15 C17 C18] result == (len(Seq(queue)) == 0)
+
+//@ func Queue.Size
+//@   requires Inv(queue)
+//@   modifies nothing
+//@   ensures [C05 C15 C17 C18] result == len(Seq(queue)) && result >= 0
+
+//@ func Queue.Clear
+//@   requires Inv(queue)
+//@   modifies queue.list.elements, elems(queue.list.elements)
+//@   ensures [C05 C15 C17] Inv(queue) && queue.list == old(queue.list) && len(Seq(queue)) == 0
+//@   ensures [C16] arraylist.Owned(queue.list)
+
+//@ func Queue.Values
+//@   requires Inv(queue)
+//@   modifies nothing
+//@   ensures [C05 C15 C16 C17 C18] (fresh(arr(result)) || arr(result) == 0) && seq(result) == Seq(queue)
+
+//@ func Queue.withinRange
+//@   inline
+
+// ---- iterator: a cursor over positions -1..n of Seq(queue) (C08) ----
+
+//@ pred ItInv(it) := it != nil && it.queue != nil && Inv(it.queue) && 0 - 1 <= it.index && it.index <= len(Seq(it.queue))
+
+//@ func Queue.Iterator
+//@   requires Inv(queue)
+//@   modifies nothing
+//@   ensures [C08 C17 C18] fresh(result) && ItInv(result) && result.queue == queue && result.index == 0 - 1
+
+//@ func Iterator.Next
+//@   requires ItInv(iterator)
+//@   modifies iterator.index
+//@   ensures [C08 C17] ItInv(iterator) && iterator.index == min(old(iterator.index) + 1, len(Seq(iterator.queue)))
+//@   ensures [C08] result == (0 <= iterator.index && iterator.index < len(Seq(iterator.queue)))
+
+//@ func Iterator.Value
+//@   requires ItInv(iterator) && 0 <= iterator.index && iterator.index < len(Seq(iterator.queue))
+//@   modifies nothing
+//@   ensures [C08 C17 C18] result == Seq(iterator.queue)[iterator.index]
+
+//@ func Iterator.Index
+//@   requires ItInv(iterator)
+//@   modifies nothing
+//@   ensures [C08 C17 C18] result == iterator.index
+
+//@ func Iterator.Begin
+//@   requires ItInv(iterator)
+//@   modifies iterator.index
+//@   ensures [C08 C17] ItInv(iterator) && iterator.index == 0 - 1
+
+//@ func Iterator.First
+//@   requires ItInv(iterator)
+//@   modifies iterator.index
+//@   ensures [C08 C17] ItInv(iterator) && iterator.index == 0 && result == (len(Seq(iterator.queue)) > 0)
+
+//@ func Iterator.NextTo
+//@   requires ItInv(iterator) && f != nil
+//@   modifies iterator.index
+//@   ensures [C08 C17] ItInv(iterator)
+//@   ensures [C08] found: result ==> old(iterator.index) < iterator.index && iterator.index < len(Seq(iterator.queue)) && f(iterator.index, Seq(iterator.queue)[iterator.index])
+//@     && (forall j :: old(iterator.index) < j && j < iterator.index ==> !f(j, Seq(iterator.queue)[j]))
+//@   ensures [C08] notfound: !result ==> iterator.index == len(Seq(iterator.queue)) && (forall j :: old(iterator.index) < j && j < len(Seq(iterator.queue)) ==> !f(j, Seq(iterator.queue)[j]))
+//@   loop 1:
+//@     invariant ItInv(iterator) && old(iterator.index) <= iterator.index
+//@     invariant forall j :: old(iterator.index) < j && j <= iterator.index && j < len(Seq(iterator.queue)) ==> !f(j, Seq(iterator.queue)[j])
+//@     decreases len(Seq(iterator.queue)) - iterator.index
+
+//@ func Iterator.Prev
+//@   requires ItInv(iterator)
+//@   modifies iterator.index
+//@   ensures [C08 C17] ItInv(iterator) && iterator.index == max(old(iterator.index) - 1, 0 - 1)
+//@   ensures [C08] result == (0 <= iterator.index && iterator.index < len(Seq(iterator.queue)))
+
+//@ func Iterator.End
+//@   requires ItInv(iterator)
+//@   modifies iterator.index
+//@   ensures [C08 C17] ItInv(iterator) && iterator.index == len(Seq(iterator.queue))
+
+//@ func Iterator.Last
+//@   requires ItInv(iterator)
+//@   modifies iterator.index
+//@   ensures [C08 C17] ItInv(iterator) && iterator.index == len(Seq(iterator.queue)) - 1 && result == (len(Seq(iterator.queue)) > 0)
+
+//@ func Iterator.PrevTo
+//@   requires ItInv(iterator) && f != nil
+//@   modifies iterator.index
+//@   ensures [C08 C17] ItInv(iterator)
+//@   ensures [C08] found: result ==> 0 <= iterator.index && iterator.index < old(iterator.index) && f(iterator.index, Seq(iterator.queue)[iterator.index])
+//@     && (forall j :: iterator.index < j && j < old(iterator.index) ==> !f(j, Seq(iterator.queue)[j]))
+//@   ensures [C08] notfound: !result ==> iterator.index == 0 - 1 && (forall j :: 0 <= j && j < old(iterator.index) ==> !f(j, Seq(iterator.queue)[j]))
+//@   loop 1:
+//@     invariant ItInv(iterator) && iterator.index <= old(iterator.index)
+//@     invariant forall j :: iterator.index <= j && j < old(iterator.index) && 0 <= j ==> !f(j, Seq(iterator.queue)[j])
+//@     decreases iterator.index + 1
+
